@@ -16,6 +16,7 @@ import sys
 sys.path.insert(0, os.path.dirname(os.path.dirname(os.path.abspath(__file__))))
 from checks.wire_common import WireCheck
 import checks.wire_common as WC
+from vlib import common as C
 from vlib import gen_descr as GD
 from vlib import wirerun as W
 
@@ -129,6 +130,15 @@ def other_backends(run, a):
     nvals = 3 if a.tier == "quick" else 8
     for backend in ("python", "cxx", "java"):
         be = B.Backend(run, backend, a.tier, a.seed + 17, n, tag="c17-" + backend)
+        if backend == "python":
+            # the Python twins are compiled by the pdlc BINARY with a declaration filter option (a configuration the
+            # library entry points do not go through: main.rs filters the file before analysis)
+            okb, outb = C.build_pdlc()
+            if okb:
+                be.via_cli = True
+                run.hist("configurations", "python twins through `pdlc --exclude-declaration <none>`")
+            else:
+                run.violation("corr", "pdlc does not build: " + outb[-500:], {"stage": "build-pdlc"}, found_input=False)
         be.generate(stratify=False)
         base = list(be.descs)
         be.descs = []
